@@ -85,6 +85,22 @@ ShapeOK(p, a) == CASE p = "scalar" -> A!IsScalar(a)
                    [] p = "square" -> A!IsSquare(a)
                    [] p = "vec3" -> a.sh = <<3>>
 
+(* A third scope, "override": a course author may replace any default function by a function of his own
+   (user_functions with suppress_warnings).  In this scope every name of the tables is bound to a user function that
+   accepts any arguments and returns a number of its own, Marker(name), recognisably different from every textbook value
+   on the grids.  It exists to state -- and to let the adapter check -- that what a text evaluates to is decided by the
+   scope handed in and by nothing else (see "history independence" below). *)
+Scopes == {"formula", "matrix", "override"}
+NameSeq == <<"abs", "adj", "arccos", "arccosh", "arccot", "arccoth", "arccsc", "arccsch", "arcsec", "arcsech", "arcsin",
+             "arcsinh", "arctan", "arctan2", "arctanh", "ceil", "conj", "cos", "cosh", "cot", "coth", "cross", "csc", "csch",
+             "ctrans", "det", "exp", "floor", "im", "kronecker", "ln", "log10", "log2", "max", "min", "norm", "re", "sec",
+             "sech", "sin", "sinh", "sqrt", "tan", "tanh", "trace", "trans">>
+ASSUME {NameSeq[i] : i \in 1..Len(NameSeq)} = DOMAIN MatrixSig /\ Len(NameSeq) = Cardinality(DOMAIN MatrixSig)
+Marker(f) == 10 + (CHOOSE i \in 1..Len(NameSeq) : NameSeq[i] = f)
+Markers == [f \in DOMAIN MatrixSig |-> Marker(f)]
+Known(tb, f) == IF tb = "override" THEN f \in DOMAIN MatrixSig ELSE f \in DOMAIN SigOf(tb)
+CountFits(tb, f, n) == tb = "override" \/ CountOK(SigOf(tb)[f], n)
+
 \* ------------------------------------------------------------------ outcomes
 (* k = "exact"     a value is required and equals v (an array record; numbers are rank 0)
        "sqrtof"    a value is required: the non-negative real whose square is the rational q
@@ -245,7 +261,8 @@ Apply(tb, f, args) ==
 
 \* any call: total over names, counts and shapes
 Outcome(tb, f, args) ==
-  IF f \notin DOMAIN SigOf(tb) THEN MustErr("undefined")
+  IF ~Known(tb, f) THEN MustErr("undefined")
+  ELSE IF tb = "override" THEN XS(GI(Marker(f)))             \* the author's function, whatever the arguments
   ELSE LET s == SigOf(tb)[f] IN
        IF ~CountOK(s, Len(args)) THEN MustErr("argcount")
        ELSE IF \E i \in 1..Len(args) : ~ShapeOK(s.p, args[i]) THEN MustErr("argshape")
@@ -372,7 +389,8 @@ Ev(t, tb) ==
             LET o == Outcome(tb, t.n, Tup([i \in 1..n |-> Sc(as[i].v)], n))
                 s == Worse(s0, Allowed(o)) IN
             IF o.k = "exact" /\ A!IsScalar(o.v) THEN RX(s, o.v.e[1]) ELSE RI(s)
-         ELSE IF t.n \notin DOMAIN SigOf(tb) \/ ~CountOK(SigOf(tb)[t.n], n) THEN RI("err")
+         ELSE IF ~Known(tb, t.n) \/ ~CountFits(tb, t.n, n) THEN RI("err")
+         ELSE IF tb = "override" THEN RX(s0, GI(Marker(t.n)))
          ELSE RI(s0)
     [] OTHER -> RI("val")                        \* array literals do not occur inside identities
 
@@ -381,7 +399,7 @@ RECURSIVE WellSorted(_, _)
 WellSorted(t, tb) ==
   CASE t.t \in {"num", "var"} -> TRUE
     [] t.t = "neg" -> WellSorted(t.a, tb)
-    [] t.t = "call" -> /\ t.n \in DOMAIN SigOf(tb) /\ CountOK(SigOf(tb)[t.n], Len(t.args))
+    [] t.t = "call" -> /\ Known(tb, t.n) /\ CountFits(tb, t.n, Len(t.args))
                        /\ \A i \in 1..Len(t.args) : WellSorted(t.args[i], tb)
     [] t.t = "arr" -> \A i \in 1..Len(t.elems) : WellSorted(t.elems[i], tb)
     [] OTHER -> WellSorted(t.a, tb) /\ WellSorted(t.b, tb)
@@ -551,8 +569,10 @@ Instance(k, z, w, tb) ==
       el == Ev(l, tb)
       er == IF d.rel = "eq" THEN Ev(r, tb) ELSE RX("val", GZ) IN
   [id |-> d.id, rel |-> d.rel, l |-> l, r |-> r, sl |-> el.s, sr |-> er.s,
+   lx |-> [ex |-> el.ex /\ el.s = "val", v |-> el.v], rx |-> [ex |-> d.rel = "eq" /\ er.ex /\ er.s = "val", v |-> er.v],
+   holds |-> tb # "override",          \* the relation is a fact about the textbook functions, not about an author's
    exact |-> el.ex /\ er.ex /\ el.s = "val" /\ er.s = "val",
-   exactHolds |-> IF el.ex /\ er.ex /\ el.s = "val" /\ er.s = "val"
+   exactHolds |-> IF tb # "override" /\ el.ex /\ er.ex /\ el.s = "val" /\ er.s = "val"
                   THEN (CASE d.rel = "eq" -> el.v = er.v
                           [] d.rel = "rege0" -> el.v[1][1] >= 0
                           [] OTHER -> TRUE)
@@ -587,12 +607,39 @@ Accepts(e, o) ==
 (* obs for an identity:  [l, r: "val" | "err" | "bad" per side (bad: nan, inf, warning, non-scalar, not student-facing),
    close (the two values agree to the tolerance), rege0, imin (-pi < Im <= pi)] *)
 SideFits(s, o) == CASE s = "err" -> o = "err" [] s = "val" -> o = "val" [] OTHER -> o \in {"val", "err"}
+\* lq, rq: the value of a side as an exact Gaussian rational <<g>> (<<>> when it is not within 1e-9 of a small fraction)
 AcceptsIdent(inst, o) ==
   /\ SideFits(inst.sl, o.l)
   /\ (inst.rel = "eq") => SideFits(inst.sr, o.r)
-  /\ (inst.rel = "eq" /\ o.l = "val" /\ o.r = "val") => o.close
-  /\ (inst.rel = "rege0" /\ o.l = "val") => o.rege0
-  /\ (inst.rel = "imrange" /\ o.l = "val") => o.imin
+  /\ (inst.holds /\ inst.rel = "eq" /\ o.l = "val" /\ o.r = "val") => o.close
+  /\ (inst.holds /\ inst.rel = "rege0" /\ o.l = "val") => o.rege0
+  /\ (inst.holds /\ inst.rel = "imrange" /\ o.l = "val") => o.imin
+  /\ (~inst.holds /\ inst.lx.ex /\ o.l = "val") => o.lq = <<inst.lx.v>>
+  /\ (~inst.holds /\ inst.rx.ex /\ o.r = "val") => o.rq = <<inst.rx.v>>
+
+\* ------------------------------------------------------------------ history independence
+(* The outcome of evaluating a text depends on the text and on the scope handed in, not on which scope evaluated that
+   text before.  Reference: a history is a sequence of scopes in which one and the same text is evaluated; the allowed
+   outcome of step i is per[h[i]] (per = the outcome of the text under each scope), whatever came before.
+   An implementation may remember results.  MemoRun models the three ways of doing so: "none"; "scope" (remember per
+   text and scope); "text" (remember per text only -- the first scope to evaluate a text fixes its value for all later
+   ones).  TLC checks that "none" and "scope" refine the reference on every history and that "text" does not (vacuity
+   guard: MC_BuiltinFuncs_order_flaw.cfg has to violate LawMemoRefines). *)
+RefRun(h, per) == Tup([i \in 1..Len(h) |-> per[h[i]]], Len(h))
+RECURSIVE MemoSteps(_, _, _, _, _)
+MemoSteps(h, per, policy, i, memo) ==          \* memo: function from the keys remembered so far to outcomes
+  IF i > Len(h) THEN <<>>
+  ELSE LET key == IF policy = "text" THEN "t" ELSE h[i]
+           hit == policy # "none" /\ key \in DOMAIN memo
+           res == IF hit THEN memo[key] ELSE per[h[i]] IN
+       <<res>> \o MemoSteps(h, per, policy, i + 1, IF hit \/ policy = "none" THEN memo ELSE (key :> res) @@ memo)
+MemoRun(h, per, policy) == MemoSteps(h, per, policy, 1, <<>>)
+LawMemoRefines(h, per, policy) == MemoRun(h, per, policy) = RefRun(h, per)
+\* the reference itself: equal scopes get equal outcomes at any two positions of any two histories, and a history of
+\* length one is the fresh evaluation
+LawHistoryIndependent(h1, h2, per) ==
+  /\ \A i \in 1..Len(h1), j \in 1..Len(h2) : h1[i] = h2[j] => RefRun(h1, per)[i] = RefRun(h2, per)[j]
+  /\ \A i \in 1..Len(h1) : RefRun(h1, per)[i] = RefRun(<<h1[i]>>, per)[1]
 
 \* ------------------------------------------------------------------ laws about the specification itself
 \* exact layer, scalars
@@ -659,8 +706,9 @@ LawCross(u, v) == LET c == CrossOf(u, v) IN
 \* signatures
 LawOutcomeTotal(tb, f, args) == LET o == Outcome(tb, f, args) IN
   /\ o.k \in OutcomeKinds
-  /\ (f \notin DOMAIN SigOf(tb)) => Allowed(o) = "err"
-  /\ (f \in DOMAIN SigOf(tb) /\ ~CountOK(SigOf(tb)[f], Len(args))) => (o.k = "err" /\ o.why = "argcount")
+  /\ (~Known(tb, f)) => Allowed(o) = "err"
+  /\ (Known(tb, f) /\ ~CountFits(tb, f, Len(args))) => (o.k = "err" /\ o.why = "argcount")
+  /\ (tb = "override" /\ Known(tb, f)) => o = XS(GI(Marker(f)))
   /\ (o.k = "exact" /\ f \in ScalarFns \cup {"arctan2", "kronecker", "min", "max", "det", "trace"}) => A!IsScalar(o.v)
   /\ (o.k \in {"exact", "silent"}) => A!WellFormed(o.v)
   \* the matrix table only adds: a call of a function of the formula table other than abs has the same outcome
@@ -702,5 +750,5 @@ LawInstance(inst, tb) ==
 \* every function of the formula table occurs in some identity, every inverse in a round trip and a left inverse
 ASSUME (UNION {FuncsIn(Identities[k].l) \cup FuncsIn(Identities[k].r) : k \in 1..Len(Identities)}) = DOMAIN FormulaSig
 ASSUME \A k \in 1..Len(Identities) : WellSorted(Identities[k].l, "formula") /\ WellSorted(Identities[k].r, "formula")
-ASSUME \A k \in 1..Len(Identities) : WellSorted(Identities[k].l, "matrix")
+ASSUME \A k \in 1..Len(Identities) : WellSorted(Identities[k].l, "matrix") /\ WellSorted(Identities[k].l, "override")
 =============================================================================
